@@ -319,4 +319,8 @@ def check(ctx, env):
     r91(ctx, prog)
     r93(ctx, prog)
     r92(ctx, prog)
+    # non-admitted attributes must not influence validation either: the text that MACs / CRCs are computed over ends at
+    # the first attribute of the requested type, whatever follows it (same rule as C04 R4.7)
+    from . import codec_rules as K
+    K.r4_7_input_text(ctx, prog, rule="R9.4")
     ctx.extra["exhaustive"] = True
